@@ -4,7 +4,7 @@
     tag — for the denoms the step concerns) after every step, and of every denom at the end.
     [check] re-runs the model on the same ops, step by step, and compares. *)
 From Coq Require Import List ZArith Bool String Ascii.
-From Paloma Require Import Base.Corr TokenFactory.Ledger TokenFactory.Denom TokenFactory.Factory.
+From Paloma Require Import Base.Corr TokenFactory.Ledger TokenFactory.Denom TokenFactory.Factory TokenFactory.Chain.
 Import ListNotations.
 Open Scope Z_scope.
 
@@ -34,6 +34,30 @@ Inductive dobs := DObs (di sup : Z) (bals : list sbal) (adm tag : Z).
     (plain constructors rather than tuples: much cheaper to elaborate in a big cases file) *)
 Inductive cstep := Step (k : cop) (code nd : Z) (obs : list dobs).
 
+(** ---- second round: histories over the extended chain model (Chain.v) ---- *)
+
+(** metadata argument of a wasm create: Base (string index), Validate(), tag *)
+Inductive wmd := NoMd | Md (base : Z) (valid : bool) (tag : Z).
+
+Inductive xcop :=
+| XK (k : cop)                            (* delivered message / other actors on the bank *)
+| XKRaw (k : cop)                         (* the same message to the raw msg server (message cops only) *)
+| XKWCreate (ct sub : Z) (md : wmd)       (* ct: account id of the contract *)
+| XKWMint (ct d x to : Z)
+| XKWBurn (ct d x from : Z)
+| XKWChangeAdmin (ct d na : Z)
+| XKWSetMeta (ct d base : Z) (valid : bool) (tag : Z)
+| XKParams (auth creator : Z) (newfee : list (Z * Z)) (valid : bool)
+| XKGenesis.
+
+(** extra observations: params as read back, GetDenomsFromCreator (as a set), community pool *)
+Inductive eobs :=
+| EParams (fee : list (Z * Z))
+| EIndex (cr : Z) (ds : list Z)
+| EPool (d v : Z).
+
+Inductive xcstep := XStep (k : xcop) (code nd : Z) (obs : list dobs) (ext : list eobs).
+
 Inductive case :=
 | CHist (strs : list string)             (* string table *)
         (book : list (Z * Z))            (* AccAddressFromBech32: (string index, account id) of the strings that parse *)
@@ -41,7 +65,16 @@ Inductive case :=
         (fee : list (Z * Z))             (* (denom index, amount) *)
         (watch : list Z)                 (* account ids whose balances are observed *)
         (steps : list cstep)
-        (final : list dobs).
+        (final : list dobs)
+| CHist2 (strs : list string)
+         (book : list (Z * Z))
+         (names : list (Z * Z))          (* AccAddress.String(): (account id, string index) *)
+         (modtf moddistr : Z) (blocked : list Z)
+         (fee0 : list (Z * Z))           (* genesis Params.DenomCreationFee *)
+         (authority : Z)                 (* string index of keeper.authority *)
+         (watch : list Z)
+         (steps : list xcstep)
+         (final : list dobs) (finalx : list eobs).
 
 Definition str_at (strs : list string) (i : Z) : string := nth (Z.to_nat i) strs EmptyString.
 
@@ -57,7 +90,7 @@ Definition err_code (e : err) : Z :=
   match e with
   | EValidate => 1 | ENotExist => 2 | EUnauthorized => 3 | EInvalidDenom => 4 | EExists => 5
   | EHasSupply => 6 | ENaming => 7 | EFunds => 8 | EBlocked => 9 | EAddr => 10 | EMeta => 11
-  | EPanic => 12
+  | EPanic => 12 | EBadReq => 13
   end.
 
 Definition to_op (strs : list string) (k : cop) : op :=
@@ -118,6 +151,83 @@ Fixpoint run_steps (c : cfg) (strs : list string) (watch : list Z) (s : state) (
     if ok_out && forallb (obs_ok strs watch s') obs then run_steps c strs watch s' r else None
   end.
 
+Fixpoint names_lookup (n : list (Z * Z)) (strs : list string) (a : Z) : string :=
+  match n with
+  | [] => EmptyString
+  | (a', si) :: r => if a =? a' then str_at strs si else names_lookup r strs a
+  end.
+
+Definition coins_at (strs : list string) (l : list (Z * Z)) : list (denom * Z) :=
+  map (fun p => (str_at strs (fst p), snd p)) l.
+
+Definition to_msg (strs : list string) (k : cop) : option msg :=
+  match to_op strs k with OMsg m => Some m | _ => None end.
+
+Definition to_xop (strs : list string) (k : xcop) : option xop :=
+  let S := str_at strs in
+  match k with
+  | XK k' => Some (XBase (to_op strs k'))
+  | XKRaw k' => match to_msg strs k' with Some m => Some (XRaw m) | None => None end
+  | XKWCreate ct sub NoMd => Some (XWasm ct (WCreate (S sub) None))
+  | XKWCreate ct sub (Md b v t) => Some (XWasm ct (WCreate (S sub) (Some (S b, v, t))))
+  | XKWMint ct d x to => Some (XWasm ct (WMint (S d) x (S to)))
+  | XKWBurn ct d x from => Some (XWasm ct (WBurn (S d) x (S from)))
+  | XKWChangeAdmin ct d na => Some (XWasm ct (WChangeAdmin (S d) (S na)))
+  | XKWSetMeta ct d b v t => Some (XWasm ct (WSetMeta (S d) (S b) v t))
+  | XKParams a cr f v => Some (XParams (S a) (S cr) (coins_at strs f) v)
+  | XKGenesis => Some XGenesis
+  end.
+
+Fixpoint coins_eqb (a b : list (denom * Z)) : bool :=
+  match a, b with
+  | [], [] => true
+  | (d, x) :: r, (d', x') :: r' => String.eqb d d' && (x =? x') && coins_eqb r r'
+  | _, _ => false
+  end.
+
+Fixpoint nodupb (l : list string) : bool :=
+  match l with
+  | [] => true
+  | x :: r => negb (existsb (String.eqb x) r) && nodupb r
+  end.
+
+Definition eobs_ok (strs : list string) (xs : xstate) (o : eobs) : bool :=
+  match o with
+  | EParams f => coins_eqb (params xs) (coins_at strs f)
+  | EIndex cr ds =>
+    let model := denoms_of xs (str_at strs cr) in
+    let seen := map (str_at strs) ds in
+    (Z.of_nat (List.length seen) =? Z.of_nat (List.length model)) && nodupb seen
+    && forallb (fun d => existsb (String.eqb d) model) seen
+  | EPool d v => pool_of xs (str_at strs d) =? v
+  end.
+
+Definition is_create_k (k : xcop) : bool :=
+  match k with
+  | XK (KCreate _ _) | XKRaw (KCreate _ _) | XKWCreate _ _ _ => true
+  | _ => false
+  end.
+
+Fixpoint run_xsteps (c : cfg) (str_of : acct -> string) (authority : string) (strs : list string)
+  (watch : list Z) (xs : xstate) (l : list xcstep) : option xstate :=
+  match l with
+  | [] => Some xs
+  | XStep k code nd obs ext :: r =>
+    match to_xop strs k with
+    | None => None
+    | Some o =>
+      let '(xs', out) := xstep_out c str_of authority xs o in
+      let ok_out :=
+        match out with
+        | Ok d => (code =? 0) &&
+                  (if is_create_k k then (0 <? nd) && String.eqb d (str_at strs (nd - 1)) else true)
+        | Err e => code =? err_code e
+        end in
+      if ok_out && forallb (obs_ok strs watch (st xs')) obs && forallb (eobs_ok strs xs') ext
+      then run_xsteps c str_of authority strs watch xs' r else None
+    end
+  end.
+
 Definition check (x : case) : bool :=
   match x with
   | CHist strs book modtf moddistr blk fee watch steps final =>
@@ -132,6 +242,22 @@ Definition check (x : case) : bool :=
       match run_steps c strs watch empty_state steps with
       | None => false
       | Some s => forallb (obs_ok strs watch s) final
+      end
+    end
+  | CHist2 strs book names modtf moddistr blk fee0 auth watch steps final finalx =>
+    let bk := mk_book strs book in
+    let c := {| addr_of := book_lookup bk; mod_tf := modtf; mod_distr := moddistr;
+                blocked := fun a => existsb (Z.eqb a) blk; fee := [] |} in
+    let str_of := names_lookup names strs in
+    (* the laws assumed of bech32: "" is not an address; String() of an account parses back to it *)
+    match book_lookup bk EmptyString with
+    | Some _ => false
+    | None =>
+      forallb (fun p => match book_lookup bk (str_at strs (snd p)) with
+                        | Some a => a =? fst p | None => false end) names &&
+      match run_xsteps c str_of (str_at strs auth) strs watch (empty_xstate (coins_at strs fee0)) steps with
+      | None => false
+      | Some xs => forallb (obs_ok strs watch (st xs)) final && forallb (eobs_ok strs xs) finalx
       end
     end
   end.
